@@ -24,9 +24,9 @@ theorem conv_installed (p n : Nat) (s : PSpec) (via : Via) (c : Conv) (args : Li
     (pre : List Nat) (hpre : expectedPrefix s.repl via = some pre) :
     conv (installedObj { spec := s, new := maybeWrapNew p s } p n) via c args kw =
       { out := s.behav.out,
-        calls := [{ callee := expectedCallee p s.repl (installedObj { spec := s, new := maybeWrapNew p s } p n).tok,
+        calls := [{ callee := expectedCallee p s (installedObj { spec := s, new := maybeWrapNew p s } p n).tok,
                     args := pre ++ args, kw := kw }] } := by
-  obtain ⟨t, repl, cr, an, vo, bh⟩ := s
+  obtain ⟨t, repl, cr, an, vo, bh, sl, sh⟩ := s
   rcases repl with _ | _ | _ | _ | _ | _ | _ | _ | (_ | _) <;> cases via <;> cases c <;>
     simp_all [expectedPrefix, Repl.desc?, bindPrefix, installedObj, maybeWrapNew, freshObj, Shape.callable,
       Repl.isCallable, Repl.acceptsAttrs, conv, invoke, expectedCallee, Obj.tok]
@@ -44,9 +44,10 @@ structure Rel (env : Env) (w : Watch) (st : State) : Prop where
   actOpen : ∀ p ∈ st.active, isOpen p st.stack = true
   actNodup : st.active.Nodup
   untainted : w.tainted = false
+  bind : w.bind = st.bind
 
 theorem rel_init (env : Env) : Rel env watchInit (init env) :=
-  ⟨fun _ => rfl, fun _ _ h => (by cases h), rfl, rfl, rfl, inv_init env, fun _ h => (by cases h), List.nodup_nil, rfl⟩
+  ⟨fun _ => rfl, fun _ _ h => (by cases h), rfl, rfl, rfl, inv_init env, fun _ h => (by cases h), List.nodup_nil, rfl, rfl⟩
 
 theorem peeks_eq (env : Env) (w : Watch) (st : State) (hs : w.stack = mapStk Obj.tok st.stack)
     (hi : ∀ t, st.store t = expectAt env.initStore st.stack t) : peekAll env st = expectedPeeks env w := by
@@ -64,14 +65,14 @@ theorem peekAll_congr (env : Env) (st st' : State) (h : st'.store = st.store) : 
 
 theorem rel_skip (env : Env) (w : Watch) (st : State) (k : Option (Nat × Nat)) (h : Rel env w st) :
     Rel env { w with skip := k } { st with skip := k } :=
-  ⟨h.specs, h.wf, h.stack, h.active, rfl, inv_skip env st k h.inv, h.actOpen, h.actNodup, h.untainted⟩
+  ⟨h.specs, h.wf, h.stack, h.active, rfl, inv_skip env st k h.inv, h.actOpen, h.actNodup, h.untainted, h.bind⟩
 
 theorem step_skipping (env : Env) (w : Watch) (st : State) (op : Op) (h : Rel env w st) (q d : Nat)
     (hsk : st.skip = some (q, d)) :
     ∃ w', watchStep env w (observe env st op).2 = .ok w' ∧ Rel env w' (observe env st op).1 := by
   have hw : w.skip = some (q, d) := by rw [h.skip, hsk]
   have hp := rel_peeks env w st h
-  obtain ⟨wspecs, wstack, wactive, wskip, wtainted⟩ := w
+  obtain ⟨wspecs, wstack, wactive, wskip, wtainted, wbind⟩ := w
   have ht : wtainted = false := h.untainted
   subst ht
   simp only [] at hw
@@ -114,11 +115,14 @@ theorem step_construct (env : Env) (w : Watch) (st : State) (p : Nat) (s : PSpec
   have hp := rel_peeks env w st h
   have hinv := inv_step env st (.construct p s) h.inv (Or.inr rfl)
   have hs := h.specs p
-  obtain ⟨wspecs, wstack, wactive, wskip, wtainted⟩ := w
+  have hc' : (retarget st.bind s).constructible env.defaults = true := hc
+  obtain ⟨wspecs, wstack, wactive, wskip, wtainted, wbind⟩ := w
   have ht : wtainted = false := h.untainted
   subst ht
   have hw : wskip = none := by have := h.skip; simp only [] at this; rw [this, hsk]
   subst hw
+  have hb : wbind = st.bind := h.bind
+  subst hb
   unfold watchStep observe
   unfold step at hinv ⊢
   simp only [hsk] at hinv ⊢
@@ -129,10 +133,10 @@ theorem step_construct (env : Env) (w : Watch) (st : State) (p : Nat) (s : PSpec
     simp only [hs, hp, beq_self_eq_true, Bool.and_self, if_true]
     exact ⟨_, rfl, h⟩
   | none =>
-    simp only [hpt, Option.map, construct_ok env.defaults p s hc] at hs hinv ⊢
+    simp only [hpt, Option.map, construct_ok env.defaults p (retarget st.bind s) hc'] at hs hinv ⊢
     simp only [peekAll] at hp ⊢
     simp only [hs, hp, bne_self_eq_false, Bool.false_eq_true, if_false]
-    refine ⟨_, rfl, ⟨fun q => ?_, fun q pt hq => ?_, h.stack, h.active, rfl, hinv, h.actOpen, h.actNodup, rfl⟩⟩
+    refine ⟨_, rfl, ⟨fun q => ?_, fun q pt hq => ?_, h.stack, h.active, rfl, hinv, h.actOpen, h.actNodup, rfl, rfl⟩⟩
     · by_cases hq : q = p
       · simp [upd, hq]
       · simp only [upd, hq, if_false]; exact h.specs q
@@ -143,7 +147,7 @@ theorem step_construct (env : Env) (w : Watch) (st : State) (p : Nat) (s : PSpec
 theorem step_peek (env : Env) (w : Watch) (st : State) (h : Rel env w st) (hsk : st.skip = none) :
     ∃ w', watchStep env w (observe env st .peek).2 = .ok w' ∧ Rel env w' (observe env st .peek).1 := by
   have hp := rel_peeks env w st h
-  obtain ⟨wspecs, wstack, wactive, wskip, wtainted⟩ := w
+  obtain ⟨wspecs, wstack, wactive, wskip, wtainted, wbind⟩ := w
   have ht : wtainted = false := h.untainted
   subst ht
   have hw : wskip = none := by have := h.skip; simp only [] at this; rw [this, hsk]
@@ -158,47 +162,66 @@ theorem step_call (env : Env) (w : Watch) (st : State) (t : Nat) (args : List Na
       Rel env w' (observe env st (.call t args kw)).1 := by
   have hp := rel_peeks env w st h
   have hstk := h.stack
-  obtain ⟨wspecs, wstack, wactive, wskip, wtainted⟩ := w
+  obtain ⟨wspecs, wstack, wactive, wskip, wtainted, wbind⟩ := w
   have ht : wtainted = false := h.untainted
   subst ht
   have hw : wskip = none := by have := h.skip; simp only [] at this; rw [this, hsk]
   subst hw
+  have hb : wbind = st.bind := h.bind
+  subst hb
   simp only [] at hstk
   subst hstk
   unfold watchStep observe step
   simp only [hsk, hp, bne_self_eq_false, Bool.false_eq_true, if_false]
   rw [topFor_mapStk]
-  cases htop : topFor t st.stack with
+  generalize st.bind t = t'
+  cases htop : topFor t' st.stack with
   | none => exact ⟨_, rfl, h⟩
   | some e =>
     simp only [Option.map_some, Option.map_none]
-    obtain ⟨hmem, het⟩ := topFor_mem st.stack t e htop
+    obtain ⟨hmem, het⟩ := topFor_mem st.stack t' e htop
     obtain ⟨pt, sv, n, h1, h2, h3, _⟩ := SavedOk_mem env _ _ _ h.inv.saved e hmem
     have hs := h.specs e.p
     simp only [h1, Option.map_some, Option.map_none] at hs
     simp only [hs]
-    cases hec : expectedConv e.p pt.spec e.o.tok (env.tspec t).via args kw with
+    cases hec : expectedConv e.p pt.spec e.o.tok (env.tspec t').via args kw with
     | none => exact ⟨_, rfl, h⟩
     | some ec =>
       simp only []
       have hwf := h.wf e.p pt h1
-      have hstore : st.store t = some e.o := by
-        rw [h.inv.store t, expectAt_topFor, htop]
+      have hstore : st.store t' = some e.o := by
+        rw [h.inv.store t', expectAt_topFor, htop]
       unfold expectedConv at hec
-      cases hpre : expectedPrefix pt.spec.repl (env.tspec t).via with
+      cases hpre : expectedPrefix pt.spec.repl (env.tspec t').via with
       | none => simp [hpre] at hec
       | some pre =>
         simp only [hpre, Option.map_some, Option.map_none] at hec
         injection hec with hec
-        have hconv : ∀ c, conv e.o (env.tspec t).via c args kw = ec := by
+        have hconv : ∀ c, conv e.o (env.tspec t').via c args kw = ec := by
           intro c
           rw [← hec, h3, hwf]
           exact conv_installed e.p n pt.spec _ c args kw pre hpre
-        have : callAll env st t args kw = [ec, ec, ec, ec] := by
+        have : callAll env st t' args kw = [ec, ec, ec, ec] := by
           simp [callAll, hstore, Conv.all, hconv]
         simp only [this, beq_self_eq_true, if_true]
         exact ⟨_, rfl, h⟩
 
+/-- rebinding a name changes neither the store nor the open patches -/
+theorem step_rebind (env : Env) (w : Watch) (st : State) (a b : Nat) (h : Rel env w st) (hsk : st.skip = none) :
+    ∃ w', watchStep env w (observe env st (.rebind a b)).2 = .ok w' ∧ Rel env w' (observe env st (.rebind a b)).1 := by
+  have hp := rel_peeks env w st h
+  obtain ⟨wspecs, wstack, wactive, wskip, wtainted, wbind⟩ := w
+  have ht : wtainted = false := h.untainted
+  subst ht
+  have hw : wskip = none := by have := h.skip; simp only [] at this; rw [this, hsk]
+  subst hw
+  have hb : wbind = st.bind := h.bind
+  subst hb
+  unfold watchStep observe step
+  simp only [peekAll] at hp ⊢
+  simp only [hsk, hp, bne_self_eq_false, Bool.false_eq_true, if_false]
+  exact ⟨_, rfl, ⟨h.specs, h.wf, h.stack, h.active, rfl, ⟨h.inv.store, h.inv.saved, h.inv.nodup⟩, h.actOpen, h.actNodup,
+    rfl, rfl⟩⟩
 
 theorem present_eq (env : Env) (st : State) (t : Nat) (hi : ∀ t, st.store t = expectAt env.initStore st.stack t) :
     ((expectAt (fun t => (env.initStore t).map Obj.tok) (mapStk Obj.tok st.stack) t).isSome || (env.inh t).isSome)
@@ -208,154 +231,297 @@ theorem present_eq (env : Env) (st : State) (t : Nat) (hi : ∀ t, st.store t = 
   cases st.store t <;> simp
 
 theorem tok_value (p n : Nat) (s : PSpec) (h : s.repl = .value) :
-    (installedObj { spec := s, new := maybeWrapNew p s } p n).tok = { id := .given p, tag := .asis } := by
-  simp [installedObj, maybeWrapNew, h, Repl.desc?, Repl.isCallable, Shape.callable, Obj.tok]
+    (installedObj { spec := s, new := maybeWrapNew p s } p n).tok = { id := s.newId p, tag := .asis } := by
+  simp [installedObj, maybeWrapNew, h, Repl.desc?, Repl.isCallable, Shape.callable, Obj.tok, PSpec.newId]
 
 theorem isOpen_cons_of {α : Type} (q : Nat) (e : Entry α) (stk : List (Entry α)) (h : isOpen q stk = true) :
     isOpen q (e :: stk) = true := by
   simp [isOpen, h]
 
-theorem step_enter (env : Env) (w : Watch) (st : State) (p : Nat) (h : Rel env w st) (hsk : st.skip = none) :
-    ∃ w', watchStep env w (observe env st (.enter p)).2 = .ok w' ∧
-      (w'.tainted = true ∨ Rel env w' (observe env st (.enter p)).1) := by
+/-! ### `__enter__`: first the name is resolved, then `_patch.__enter__` runs on the resolved patcher -/
+
+theorem maybeWrapNew_retarget (p : Nat) (b : Nat → Nat) (s : PSpec) : maybeWrapNew p (retarget b s) = maybeWrapNew p s := rfl
+
+theorem resolveP_spec (b : Nat → Nat) (pt : Patcher) :
+    (resolveP b pt).spec = if pt.spec.viaObject then pt.spec else retarget b pt.spec := by
+  unfold resolveP; split <;> rfl
+
+theorem resolveP_wf (b : Nat → Nat) (p : Nat) (pt : Patcher) (h : pt = { spec := pt.spec, new := maybeWrapNew p pt.spec }) :
+    resolveP b pt = { spec := (resolveP b pt).spec, new := maybeWrapNew p (resolveP b pt).spec } := by
+  unfold resolveP
+  split
+  · exact h
+  · show ({ pt with spec := retarget b pt.spec } : Patcher) = _
+    rw [maybeWrapNew_retarget]
+    rw [h]
+
+/-- re-resolving the name of a patcher that has no open patch: the observer stores the re-targeted spec, the model
+    the re-targeted patcher; they stay in step -/
+theorem rel_resolve (env : Env) (w : Watch) (st : State) (p : Nat) (pt0 : Patcher) (h : Rel env w st)
+    (hpt : st.patchers p = some pt0) (hopen : isOpen p st.stack = false) :
+    Rel env { w with specs := upd w.specs p (some (resolveP st.bind pt0).spec) }
+      (setPatcher st p (resolveP st.bind pt0)) := by
+  refine ⟨fun q => ?_, fun q pt hq => ?_, h.stack, h.active, h.skip, inv_setPatcher env st p _ h.inv hopen,
+    h.actOpen, h.actNodup, h.untainted, h.bind⟩
+  · by_cases hq : q = p
+    · simp [setPatcher, upd, hq]
+    · simp only [setPatcher, upd, hq, if_false]; exact h.specs q
+  · by_cases hqp : q = p
+    · simp only [setPatcher, upd, hqp, if_true] at hq
+      injection hq with hq; subst hq; rw [hqp]
+      exact resolveP_wf st.bind p pt0 (h.wf p pt0 hpt)
+    · simp only [setPatcher, upd, hqp, if_false] at hq; exact h.wf q pt hq
+
+/-- the part of `enterWatch` that follows the resolution of the patcher's name -/
+def enterCore (env : Env) (w : Watch) (ob : Obs) (p : Nat) (isStart : Bool) (s : PSpec) : Except String Watch :=
+  let present := (expectAt (fun t => (env.initStore t).map Obj.tok) w.stack s.target).isSome
+                 || (env.inh s.target).isSome
+  if !s.create && !present then
+    if ob.res == .raised .attributeError && ob.peeks == expectedPeeks env w then
+      .ok (if isStart then w else { w with skip := some (p, 0) })
+    else .error "enter-missing"
+  else
+    match ob.res with
+    | .entered o =>
+      if s.repl == .value && o != { id := s.newId p, tag := .asis } then .error "noncallable-as-is" else
+      let w' := { w with stack := { p := p, t := s.target, o := o } :: w.stack, active := if isStart then w.active ++ [p] else w.active }
+      if ob.peeks == expectedPeeks env w' then .ok w' else .error "installed"
+    | _ => .error "enter"
+
+theorem enterWatch_resolved (env : Env) (w : Watch) (ob : Obs) (p : Nat) (isStart : Bool) (s0 : PSpec)
+    (hs : w.specs p = some s0) (ho : isOpen p w.stack = false) :
+    enterWatch env w ob p isStart =
+      enterCore env { w with specs := upd w.specs p (some (if s0.viaObject then s0 else retarget w.bind s0)) } ob p isStart
+        (if s0.viaObject then s0 else retarget w.bind s0) := by
+  unfold enterWatch enterCore
+  simp only [hs, ho, Bool.false_eq_true, if_false]
+  rfl
+
+/-- what `step` does with `with patcher:` once the patcher is resolved -/
+def enterThen (env : Env) (pt : Patcher) (p : Nat) (st : State) : State × Res :=
+  match (enter env pt p st).2 with
+  | .entered _ => enter env pt p st
+  | _ => ({ (enter env pt p st).1 with skip := some (p, 0) }, (enter env pt p st).2)
+
+theorem step_enter_eq (env : Env) (st : State) (p : Nat) (pt0 : Patcher) (hsk : st.skip = none)
+    (hpt : st.patchers p = some pt0) :
+    step env st (.enter p) = enterThen env (resolveP st.bind pt0) p (setPatcher st p (resolveP st.bind pt0)) := by
+  unfold step enterThen
+  simp only [hsk, hpt]
+  generalize enter env _ p _ = x
+  obtain ⟨a, r⟩ := x
+  cases r <;> rfl
+
+theorem step_start_eq (env : Env) (st : State) (p : Nat) (pt0 : Patcher) (hsk : st.skip = none)
+    (hpt : st.patchers p = some pt0) :
+    step env st (.start p) = start env (resolveP st.bind pt0) p (setPatcher st p (resolveP st.bind pt0)) := by
+  unfold step
+  simp only [hsk, hpt]
+
+theorem enterCore_enter (env : Env) (w : Watch) (st : State) (p : Nat) (pt : Patcher) (op : Op) (h : Rel env w st)
+    (hsk : st.skip = none) (hpt : st.patchers p = some pt) (hopen : isOpen p st.stack = false) :
+    ∃ w', enterCore env w { op := op, res := (enterThen env pt p st).2, peeks := peekAll env (enterThen env pt p st).1 }
+        p false pt.spec = .ok w' ∧ Rel env w' (enterThen env pt p st).1 := by
   have hp := rel_peeks env w st h
-  have hs := h.specs p
   have hstk := h.stack
-  obtain ⟨wspecs, wstack, wactive, wskip, wtainted⟩ := w
+  obtain ⟨wspecs, wstack, wactive, wskip, wtainted, wbind⟩ := w
   have ht : wtainted = false := h.untainted
   subst ht
   have hw : wskip = none := by have := h.skip; simp only [] at this; rw [this, hsk]
   subst hw
-  simp only [] at hstk hs
+  simp only [] at hstk
   subst hstk
-  unfold watchStep observe enterWatch
-  unfold step
-  simp only [hsk]
+  have hinv := inv_enter env st pt p h.inv hpt hopen
+  have hwf := h.wf p pt hpt
+  unfold enterCore enterThen
+  simp only [present_eq env st pt.spec.target h.inv.store]
+  unfold enter at hinv ⊢
+  simp only [] at hinv ⊢
+  by_cases hfail : (!pt.spec.create && (getOriginal env st pt.spec.target).1.isNone) = true
+  · have hfail' : (!pt.spec.create && !(getOriginal env st pt.spec.target).1.isSome) = true := by
+      simpa using hfail
+    simp only [hfail, hfail', if_true]
+    simp only [peekAll] at hp ⊢
+    simp only [hp, beq_self_eq_true, Bool.and_self, if_true, Bool.false_eq_true, if_false]
+    exact ⟨_, rfl, rel_skip env _ st _ h⟩
+  · have hfail' : ¬ (!pt.spec.create && !(getOriginal env st pt.spec.target).1.isSome) = true := by
+      simpa using hfail
+    simp only [hfail, hfail', Bool.false_eq_true, if_false] at hinv ⊢
+    have hval : ¬ ((pt.spec.repl == Repl.value &&
+        (installedObj pt p (st.entries p)).tok != { id := pt.spec.newId p, tag := Tag.asis }) = true) := by
+      intro hc
+      simp only [Bool.and_eq_true, beq_iff_eq, bne_iff_ne] at hc
+      apply hc.2
+      rw [hwf]
+      exact tok_value p _ pt.spec hc.1
+    simp only [hval, if_false]
+    have hrel : Rel env
+        { specs := wspecs, stack := { p := p, t := pt.spec.target, o := (installedObj pt p (st.entries p)).tok } ::
+            mapStk Obj.tok st.stack, active := wactive, skip := none, tainted := false, bind := wbind }
+        { st with store := upd st.store pt.spec.target (some (installedObj pt p (st.entries p))),
+                  saved := upd st.saved p (some (getOriginal env st pt.spec.target)),
+                  entries := upd st.entries p (match pt.new with | some _ => st.entries p | none => st.entries p + 1),
+                  stack := { p := p, t := pt.spec.target, o := installedObj pt p (st.entries p) } :: st.stack } :=
+      ⟨h.specs, h.wf, rfl, h.active, (by simp only [hsk]), hinv, fun q hq => isOpen_cons_of q _ _ (h.actOpen q hq),
+        h.actNodup, rfl, h.bind⟩
+    have hp2 := rel_peeks env _ _ hrel
+    simp only [peekAll] at hp2 ⊢
+    simp only [hp2, beq_self_eq_true, if_true, Bool.false_eq_true, if_false]
+    exact ⟨_, rfl, hrel⟩
+
+theorem enterCore_start (env : Env) (w : Watch) (st : State) (p : Nat) (pt : Patcher) (op : Op) (h : Rel env w st)
+    (hsk : st.skip = none) (hpt : st.patchers p = some pt) (hopen : isOpen p st.stack = false) :
+    ∃ w', enterCore env w { op := op, res := (start env pt p st).2, peeks := peekAll env (start env pt p st).1 }
+        p true pt.spec = .ok w' ∧ Rel env w' (start env pt p st).1 := by
+  have hp := rel_peeks env w st h
+  have hstk := h.stack
+  obtain ⟨wspecs, wstack, wactive, wskip, wtainted, wbind⟩ := w
+  have ht : wtainted = false := h.untainted
+  subst ht
+  have hw : wskip = none := by have := h.skip; simp only [] at this; rw [this, hsk]
+  subst hw
+  simp only [] at hstk
+  subst hstk
+  have hinv := inv_enter env st pt p h.inv hpt hopen
+  have hwf := h.wf p pt hpt
+  unfold enterCore start
+  simp only [present_eq env st pt.spec.target h.inv.store]
+  unfold enter at hinv ⊢
+  simp only [] at hinv ⊢
+  by_cases hfail : (!pt.spec.create && (getOriginal env st pt.spec.target).1.isNone) = true
+  · have hfail' : (!pt.spec.create && !(getOriginal env st pt.spec.target).1.isSome) = true := by
+      simpa using hfail
+    simp only [hfail, hfail', if_true]
+    simp only [peekAll] at hp ⊢
+    simp only [hp, beq_self_eq_true, Bool.and_self, if_true]
+    exact ⟨_, rfl, h⟩
+  · have hfail' : ¬ (!pt.spec.create && !(getOriginal env st pt.spec.target).1.isSome) = true := by
+      simpa using hfail
+    simp only [hfail, hfail', Bool.false_eq_true, if_false] at hinv ⊢
+    have hval : ¬ ((pt.spec.repl == Repl.value &&
+        (installedObj pt p (st.entries p)).tok != { id := pt.spec.newId p, tag := Tag.asis }) = true) := by
+      intro hc
+      simp only [Bool.and_eq_true, beq_iff_eq, bne_iff_ne] at hc
+      apply hc.2
+      rw [hwf]
+      exact tok_value p _ pt.spec hc.1
+    simp only [hval, if_false]
+    have hrel : Rel env
+        { specs := wspecs, stack := { p := p, t := pt.spec.target, o := (installedObj pt p (st.entries p)).tok } ::
+            mapStk Obj.tok st.stack, active := wactive ++ [p], skip := none, tainted := false, bind := wbind }
+        { st with store := upd st.store pt.spec.target (some (installedObj pt p (st.entries p))),
+                  saved := upd st.saved p (some (getOriginal env st pt.spec.target)),
+                  entries := upd st.entries p (match pt.new with | some _ => st.entries p | none => st.entries p + 1),
+                  stack := { p := p, t := pt.spec.target, o := installedObj pt p (st.entries p) } :: st.stack,
+                  active := st.active ++ [p] } := by
+      have hact : wactive = st.active := h.active
+      have hnot : p ∉ st.active := fun hin => by
+        have := h.actOpen p hin; rw [hopen] at this; cases this
+      refine ⟨h.specs, h.wf, rfl, (by simp only [hact]), (by simp only [hsk]), inv_active env _ _ hinv, fun q hq => ?_, ?_, rfl,
+        h.bind⟩
+      · simp only [List.mem_append, List.mem_singleton] at hq
+        cases hq with
+        | inl hq => exact isOpen_cons_of q _ _ (h.actOpen q hq)
+        | inr hq => simp [isOpen, hq]
+      · rw [List.nodup_append]
+        refine ⟨h.actNodup, (by simp), fun a ha b hb => ?_⟩
+        simp only [List.mem_singleton] at hb
+        subst hb
+        exact fun hab => hnot (hab ▸ ha)
+    have hp2 := rel_peeks env _ _ hrel
+    simp only [peekAll] at hp2 ⊢
+    simp only [hp2, beq_self_eq_true, if_true]
+    exact ⟨_, rfl, hrel⟩
+
+theorem step_enter (env : Env) (w : Watch) (st : State) (p : Nat) (h : Rel env w st) (hsk : st.skip = none) :
+    ∃ w', watchStep env w (observe env st (.enter p)).2 = .ok w' ∧
+      (w'.tainted = true ∨ Rel env w' (observe env st (.enter p)).1) := by
+  have hwsk : w.skip = none := by rw [h.skip, hsk]
+  have hs := h.specs p
+  have hwstep : ∀ ob : Obs, ob.op = .enter p → watchStep env w ob = enterWatch env w ob p false := by
+    intro ob hob
+    unfold watchStep
+    simp only [h.untainted, hwsk, hob, Bool.false_eq_true, if_false]
+  rw [hwstep _ rfl]
   cases hpt : st.patchers p with
   | none =>
-    simp only [hpt, Option.map_some, Option.map_none] at hs ⊢
+    have hp := rel_peeks env w st h
+    rw [hpt] at hs
+    simp only [Option.map_none] at hs
+    unfold enterWatch observe step
+    simp only [hsk, hpt, hs]
     simp only [peekAll] at hp ⊢
-    simp only [hs, hp, beq_self_eq_true, Bool.and_self, if_true, Bool.false_eq_true, if_false]
+    simp only [hp, beq_self_eq_true, Bool.and_self, if_true, Bool.false_eq_true, if_false]
     exact ⟨_, rfl, Or.inr (rel_skip env _ st _ h)⟩
-  | some pt =>
-    simp only [hpt, Option.map_some, Option.map_none] at hs ⊢
-    simp only [hs, isOpen_mapStk, Bool.false_eq_true, if_false]
+  | some pt0 =>
+    rw [hpt] at hs
+    simp only [Option.map_some] at hs
     cases hopen : isOpen p st.stack with
-    | true => exact ⟨_, rfl, Or.inl rfl⟩
+    | true =>
+      have ho : isOpen p w.stack = true := by rw [h.stack, isOpen_mapStk]; exact hopen
+      unfold enterWatch
+      simp only [hs, ho, if_true]
+      exact ⟨_, rfl, Or.inl rfl⟩
     | false =>
-      have hinv := inv_enter env st pt p h.inv hpt hopen
-      have hwf := h.wf p pt hpt
-      simp only [Bool.false_eq_true, if_false, present_eq env st pt.spec.target h.inv.store]
-      unfold enter at hinv ⊢
-      simp only [] at hinv ⊢
-      by_cases hfail : (!pt.spec.create && (getOriginal env st pt.spec.target).1.isNone) = true
-      · have hfail' : (!pt.spec.create && !(getOriginal env st pt.spec.target).1.isSome) = true := by
-          simpa using hfail
-        simp only [hfail, hfail', if_true]
-        simp only [peekAll] at hp ⊢
-        simp only [hp, beq_self_eq_true, Bool.and_self, if_true]
-        exact ⟨_, rfl, Or.inr (rel_skip env _ st _ h)⟩
-      · have hfail' : ¬ (!pt.spec.create && !(getOriginal env st pt.spec.target).1.isSome) = true := by
-          simpa using hfail
-        simp only [hfail, hfail', Bool.false_eq_true, if_false] at hinv ⊢
-        have hval : ¬ ((pt.spec.repl == Repl.value &&
-            (installedObj pt p (st.entries p)).tok != { id := ObjId.given p, tag := Tag.asis }) = true) := by
-          intro hc
-          simp only [Bool.and_eq_true, beq_iff_eq, bne_iff_ne] at hc
-          apply hc.2
-          rw [hwf]
-          exact tok_value p _ pt.spec hc.1
-        simp only [hval, if_false]
-        have hrel : Rel env
-            { specs := wspecs, stack := { p := p, t := pt.spec.target, o := (installedObj pt p (st.entries p)).tok } ::
-                mapStk Obj.tok st.stack, active := wactive, skip := none, tainted := false }
-            { st with store := upd st.store pt.spec.target (some (installedObj pt p (st.entries p))),
-                      saved := upd st.saved p (some (getOriginal env st pt.spec.target)),
-                      entries := upd st.entries p (match pt.new with | some _ => st.entries p | none => st.entries p + 1),
-                      stack := { p := p, t := pt.spec.target, o := installedObj pt p (st.entries p) } :: st.stack } :=
-          ⟨h.specs, h.wf, rfl, h.active, (by simp only [hsk]), hinv, fun q hq => isOpen_cons_of q _ _ (h.actOpen q hq),
-            h.actNodup, rfl⟩
-        have hp2 := rel_peeks env _ _ hrel
-        simp only [peekAll] at hp2 ⊢
-        simp only [hp2, beq_self_eq_true, if_true]
-        exact ⟨_, rfl, Or.inr hrel⟩
+      have ho : isOpen p w.stack = false := by rw [h.stack, isOpen_mapStk]; exact hopen
+      have hsp : (if pt0.spec.viaObject then pt0.spec else retarget w.bind pt0.spec) = (resolveP st.bind pt0).spec := by
+        rw [h.bind, resolveP_spec]
+      rw [enterWatch_resolved env w _ p false pt0.spec hs ho, hsp]
+      have hrel := rel_resolve env w st p pt0 h hpt hopen
+      obtain ⟨w', h1, h2⟩ := enterCore_enter env _ _ p (resolveP st.bind pt0) (.enter p) hrel hsk
+        (setPatcher_patchers st p _) hopen
+      refine ⟨w', ?_, Or.inr ?_⟩
+      · unfold observe
+        simp only [step_enter_eq env st p pt0 hsk hpt]
+        exact h1
+      · unfold observe
+        simp only [step_enter_eq env st p pt0 hsk hpt]
+        exact h2
 
 theorem step_start (env : Env) (w : Watch) (st : State) (p : Nat) (h : Rel env w st) (hsk : st.skip = none) :
     ∃ w', watchStep env w (observe env st (.start p)).2 = .ok w' ∧
       (w'.tainted = true ∨ Rel env w' (observe env st (.start p)).1) := by
-  have hp := rel_peeks env w st h
+  have hwsk : w.skip = none := by rw [h.skip, hsk]
   have hs := h.specs p
-  have hstk := h.stack
-  obtain ⟨wspecs, wstack, wactive, wskip, wtainted⟩ := w
-  have ht : wtainted = false := h.untainted
-  subst ht
-  have hw : wskip = none := by have := h.skip; simp only [] at this; rw [this, hsk]
-  subst hw
-  simp only [] at hstk hs
-  subst hstk
-  unfold watchStep observe enterWatch
-  unfold step start
-  simp only [hsk]
+  have hwstep : ∀ ob : Obs, ob.op = .start p → watchStep env w ob = enterWatch env w ob p true := by
+    intro ob hob
+    unfold watchStep
+    simp only [h.untainted, hwsk, hob, Bool.false_eq_true, if_false]
+  rw [hwstep _ rfl]
   cases hpt : st.patchers p with
   | none =>
-    simp only [hpt, Option.map_some, Option.map_none] at hs ⊢
+    have hp := rel_peeks env w st h
+    rw [hpt] at hs
+    simp only [Option.map_none] at hs
+    unfold enterWatch observe step
+    simp only [hsk, hpt, hs]
     simp only [peekAll] at hp ⊢
-    simp only [hs, hp, beq_self_eq_true, Bool.and_self, if_true, Bool.false_eq_true, if_false]
+    simp only [hp, beq_self_eq_true, Bool.and_self, if_true, Bool.false_eq_true, if_false]
     exact ⟨_, rfl, Or.inr h⟩
-  | some pt =>
-    simp only [hpt, Option.map_some, Option.map_none] at hs ⊢
-    simp only [hs, isOpen_mapStk, Bool.false_eq_true, if_false]
+  | some pt0 =>
+    rw [hpt] at hs
+    simp only [Option.map_some] at hs
     cases hopen : isOpen p st.stack with
-    | true => exact ⟨_, rfl, Or.inl rfl⟩
+    | true =>
+      have ho : isOpen p w.stack = true := by rw [h.stack, isOpen_mapStk]; exact hopen
+      unfold enterWatch
+      simp only [hs, ho, if_true]
+      exact ⟨_, rfl, Or.inl rfl⟩
     | false =>
-      have hinv := inv_enter env st pt p h.inv hpt hopen
-      have hwf := h.wf p pt hpt
-      simp only [Bool.false_eq_true, if_false, present_eq env st pt.spec.target h.inv.store]
-      unfold enter at hinv ⊢
-      simp only [] at hinv ⊢
-      by_cases hfail : (!pt.spec.create && (getOriginal env st pt.spec.target).1.isNone) = true
-      · have hfail' : (!pt.spec.create && !(getOriginal env st pt.spec.target).1.isSome) = true := by
-          simpa using hfail
-        simp only [hfail, hfail', if_true]
-        simp only [peekAll] at hp ⊢
-        simp only [hp, beq_self_eq_true, Bool.and_self, if_true]
-        exact ⟨_, rfl, Or.inr h⟩
-      · have hfail' : ¬ (!pt.spec.create && !(getOriginal env st pt.spec.target).1.isSome) = true := by
-          simpa using hfail
-        simp only [hfail, hfail', Bool.false_eq_true, if_false] at hinv ⊢
-        have hval : ¬ ((pt.spec.repl == Repl.value &&
-            (installedObj pt p (st.entries p)).tok != { id := ObjId.given p, tag := Tag.asis }) = true) := by
-          intro hc
-          simp only [Bool.and_eq_true, beq_iff_eq, bne_iff_ne] at hc
-          apply hc.2
-          rw [hwf]
-          exact tok_value p _ pt.spec hc.1
-        simp only [hval, if_false]
-        have hrel : Rel env
-            { specs := wspecs, stack := { p := p, t := pt.spec.target, o := (installedObj pt p (st.entries p)).tok } ::
-                mapStk Obj.tok st.stack, active := wactive ++ [p], skip := none, tainted := false }
-            { st with store := upd st.store pt.spec.target (some (installedObj pt p (st.entries p))),
-                      saved := upd st.saved p (some (getOriginal env st pt.spec.target)),
-                      entries := upd st.entries p (match pt.new with | some _ => st.entries p | none => st.entries p + 1),
-                      stack := { p := p, t := pt.spec.target, o := installedObj pt p (st.entries p) } :: st.stack,
-                      active := st.active ++ [p] } := by
-          have hact : wactive = st.active := h.active
-          have hnot : p ∉ st.active := fun hin => by
-            have := h.actOpen p hin; rw [hopen] at this; cases this
-          refine ⟨h.specs, h.wf, rfl, (by simp only [hact]), (by simp only [hsk]), inv_active env _ _ hinv, fun q hq => ?_, ?_, rfl⟩
-          · simp only [List.mem_append, List.mem_singleton] at hq
-            cases hq with
-            | inl hq => exact isOpen_cons_of q _ _ (h.actOpen q hq)
-            | inr hq => simp [isOpen, hq]
-          · rw [List.nodup_append]
-            refine ⟨h.actNodup, (by simp), fun a ha b hb => ?_⟩
-            simp only [List.mem_singleton] at hb
-            subst hb
-            exact fun hab => hnot (hab ▸ ha)
-        have hp2 := rel_peeks env _ _ hrel
-        simp only [peekAll] at hp2 ⊢
-        simp only [hp2, beq_self_eq_true, if_true]
-        exact ⟨_, rfl, Or.inr hrel⟩
+      have ho : isOpen p w.stack = false := by rw [h.stack, isOpen_mapStk]; exact hopen
+      have hsp : (if pt0.spec.viaObject then pt0.spec else retarget w.bind pt0.spec) = (resolveP st.bind pt0).spec := by
+        rw [h.bind, resolveP_spec]
+      rw [enterWatch_resolved env w _ p true pt0.spec hs ho, hsp]
+      have hrel := rel_resolve env w st p pt0 h hpt hopen
+      obtain ⟨w', h1, h2⟩ := enterCore_start env _ _ p (resolveP st.bind pt0) (.start p) hrel hsk
+        (setPatcher_patchers st p _) hopen
+      refine ⟨w', ?_, Or.inr ?_⟩
+      · unfold observe
+        simp only [step_start_eq env st p pt0 hsk hpt]
+        exact h1
+      · unfold observe
+        simp only [step_start_eq env st p pt0 hsk hpt]
+        exact h2
 
 
 
@@ -375,6 +541,10 @@ theorem isOpen_eraseP_ne {α : Type} (p q : Nat) (stk : List (Entry α)) (h : is
       | inl h => simp [isOpen, h]
       | inr h => simp [isOpen, ih h]
 
+theorem exit_bind (env : Env) (pt : Patcher) (p : Nat) (exc : Bool) (st : State) :
+    (exit env pt p exc st).1.bind = st.bind := by
+  unfold exit; split <;> rfl
+
 /-- ending a well-nested patch: the model's `__exit__` succeeds and the relation continues with the entry removed -/
 theorem rel_exit (env : Env) (w : Watch) (st : State) (p : Nat) (pt : Patcher) (exc : Bool) (h : Rel env w st)
     (hpt : st.patchers p = some pt) (htop : isTop pt.spec.target p st.stack = true) (hact : p ∉ st.active) :
@@ -382,7 +552,7 @@ theorem rel_exit (env : Env) (w : Watch) (st : State) (p : Nat) (pt : Patcher) (
       Rel env { w with stack := eraseP p w.stack } (exit env pt p exc st).1 := by
   have hinv := inv_exit env st pt p exc h.inv hpt htop
   obtain ⟨hres, hstk, hactive, hpat, hskip⟩ := exit_res env st pt p exc h.inv hpt htop
-  refine ⟨hres, ⟨?_, ?_, ?_, ?_, ?_, hinv, ?_, ?_, h.untainted⟩⟩
+  refine ⟨hres, ⟨?_, ?_, ?_, ?_, ?_, hinv, ?_, ?_, h.untainted, ?_⟩⟩
   · intro q; rw [hpat]; exact h.specs q
   · intro q pt' hq; rw [hpat] at hq; exact h.wf q pt' hq
   · show eraseP p w.stack = _
@@ -396,6 +566,8 @@ theorem rel_exit (env : Env) (w : Watch) (st : State) (p : Nat) (pt : Patcher) (
     rw [hstk]
     exact isOpen_eraseP_ne p q _ (h.actOpen q hq) (fun hqp => hact (hqp ▸ hq))
   · rw [hactive]; exact h.actNodup
+  · show w.bind = _
+    rw [exit_bind]; exact h.bind
 
 theorem rel_stop (env : Env) (w : Watch) (st : State) (p : Nat) (pt : Patcher) (h : Rel env w st)
     (hpt : st.patchers p = some pt) (htop : isTop pt.spec.target p st.stack = true) (hact : p ∈ st.active) :
@@ -404,7 +576,7 @@ theorem rel_stop (env : Env) (w : Watch) (st : State) (p : Nat) (pt : Patcher) (
   have hrel0 : Rel env { w with active := w.active.erase p } { st with active := st.active.erase p } :=
     ⟨h.specs, h.wf, h.stack, (by show w.active.erase p = st.active.erase p; rw [h.active]), h.skip,
       inv_active env st _ h.inv,
-      fun q hq => h.actOpen q (List.mem_of_mem_erase hq), h.actNodup.erase p, h.untainted⟩
+      fun q hq => h.actOpen q (List.mem_of_mem_erase hq), h.actNodup.erase p, h.untainted, h.bind⟩
   have hnot : p ∉ ({ st with active := st.active.erase p } : State).active := by
     show p ∉ st.active.erase p
     exact fun hin => (List.Nodup.mem_erase_iff h.actNodup).1 hin |>.1 rfl
@@ -423,7 +595,7 @@ theorem step_exit (env : Env) (w : Watch) (st : State) (p : Nat) (exc : Bool) (h
   have hs := h.specs p
   have hstk := h.stack
   have hact := h.active
-  obtain ⟨wspecs, wstack, wactive, wskip, wtainted⟩ := w
+  obtain ⟨wspecs, wstack, wactive, wskip, wtainted, wbind⟩ := w
   have ht : wtainted = false := h.untainted
   subst ht
   have hw : wskip = none := by have := h.skip; simp only [] at this; rw [this, hsk]
@@ -444,14 +616,14 @@ theorem step_exit (env : Env) (w : Watch) (st : State) (p : Nat) (exc : Bool) (h
       have hp2 := rel_peeks env _ _ hrel
       have htop' : isTop pt.spec.target p wstack = true := by rw [hstk, isTop_mapStk]; exact hok.1
       have hact' : wactive.contains p = false := by rw [hact]; simpa using hok.2
-      refine ⟨{ specs := wspecs, stack := eraseP p wstack, active := wactive, skip := none, tainted := false }, ?_, Or.inr ?_⟩
+      refine ⟨{ specs := wspecs, stack := eraseP p wstack, active := wactive, skip := none, tainted := false, bind := wbind }, ?_, Or.inr ?_⟩
       · unfold watchStep observe step
         simp only [hsk, hpt, hs, htop', hact', Bool.false_eq_true, if_false, Bool.not_true, Bool.or_self]
         simp only [hres, hp2, bne_self_eq_false, Bool.false_eq_true, if_false]
       · unfold observe step
         simp only [hsk, hpt]
         exact hrel
-    · refine ⟨{ specs := wspecs, stack := wstack, active := wactive, skip := none, tainted := true }, ?_, Or.inl rfl⟩
+    · refine ⟨{ specs := wspecs, stack := wstack, active := wactive, skip := none, tainted := true, bind := wbind }, ?_, Or.inl rfl⟩
       have : (!isTop pt.spec.target p wstack || wactive.contains p) = true := by
         rw [hstk, isTop_mapStk, hact]
         by_cases h1 : isTop pt.spec.target p st.stack = true
@@ -469,7 +641,7 @@ theorem step_stop (env : Env) (w : Watch) (st : State) (p : Nat) (h : Rel env w 
   have hs := h.specs p
   have hstk := h.stack
   have hact := h.active
-  obtain ⟨wspecs, wstack, wactive, wskip, wtainted⟩ := w
+  obtain ⟨wspecs, wstack, wactive, wskip, wtainted, wbind⟩ := w
   have ht : wtainted = false := h.untainted
   subst ht
   have hw : wskip = none := by have := h.skip; simp only [] at this; rw [this, hsk]
@@ -492,14 +664,14 @@ theorem step_stop (env : Env) (w : Watch) (st : State) (p : Nat) (h : Rel env w 
         have hp2 := rel_peeks env _ _ hrel
         have htop' : isTop pt.spec.target p wstack = true := by rw [hstk, isTop_mapStk]; exact htop
         refine ⟨{ specs := wspecs, stack := eraseP p wstack, active := wactive.erase p, skip := none,
-                  tainted := false }, ?_, Or.inr ?_⟩
+                  tainted := false, bind := wbind }, ?_, Or.inr ?_⟩
         · unfold watchStep observe step
           simp only [hsk, hpt, hs, htop', hact', Bool.false_eq_true, if_false, Bool.not_true]
           simp only [hres, hp2, bne_self_eq_false, Bool.false_eq_true, if_false]
         · unfold observe step
           simp only [hsk, hpt]
           exact hrel
-      · refine ⟨{ specs := wspecs, stack := wstack, active := wactive, skip := none, tainted := true }, ?_, Or.inl rfl⟩
+      · refine ⟨{ specs := wspecs, stack := wstack, active := wactive, skip := none, tainted := true, bind := wbind }, ?_, Or.inl rfl⟩
         have htop' : isTop pt.spec.target p wstack = false := by
           rw [hstk, isTop_mapStk]; simpa using htop
         unfold watchStep observe step
@@ -603,6 +775,9 @@ theorem sim_step (env : Env) (w : Watch) (st : State) (op : Op) (hc : op.constru
         exact ⟨w', h1, Or.inr h2⟩
       | peek =>
         obtain ⟨w', h1, h2⟩ := step_peek env w st h hsk
+        exact ⟨w', h1, Or.inr h2⟩
+      | rebind a b =>
+        obtain ⟨w', h1, h2⟩ := step_rebind env w st a b h hsk
         exact ⟨w', h1, Or.inr h2⟩
 
 theorem watchRun_ok (env : Env) (ops : List Op) (hc : ops.all (Op.constructible env.defaults) = true) (w : Watch) (st : State)
